@@ -47,6 +47,13 @@ CHECKS = {
             "of <=1/2 characters over a 6-character alphabet x all lines of <=4 characters x 8 flag combinations (ASan), random longer "
             "multi-byte cases, and a classifier check that only operator-free patterns take the fast path.",
             "Differential: the general engine is the reference (itself checked by C10); lines are newline terminated.", "3/C12"),
+    "C11": ("exploration", "exhaustive enumeration of short metacharacter strings + property-based byte strings + coverage-guided libFuzzer "
+                           "with the offset oracle inside the target (ASan/UBSan)",
+            "All strings of <=4/5 characters over a 19-character metacharacter alphabet compiled by both entry points and matched against "
+            "a line family under all flag combinations with offsets validated in the probe; random byte strings to 300 bytes with "
+            "malformed constructs; libFuzzer campaign on fuzz_rx.c (crash-/leak- artifacts are violations).",
+            "Astronomically ambiguous patterns (F22) are excluded by an independent analysis and counted; libFuzzer campaigns are only "
+            "approximately reproducible (the saved artifact is the reproducible unit).", "3/C11"),
 }
 
 ALL = ["C%02d" % i for i in range(1, 21)]
